@@ -162,6 +162,22 @@ CHECKS = {
         note="Partial: completeness only end-to-end; Object/Kernel methods (class \"\") are listed only through the lower-case receiver rule and are outside the expectation; names compared on their first byte as the Go code does. A defect (object built by `new` listing class/private methods) was repaired by a fix: commit.",
         technique="Lean 4 proof (induction on fuel, mutual well-founded recursion) + differential stream over hooks + end-to-end completion comparison",
     ),
+    "C07": dict(
+        category="proof",
+        text="Per-argument decision proved in Lean for EVERY declared parameter type and argument type (any tags, object classes, variant lists): if every possible value of the argument is rejected by the parameter, checkArgType reports a mismatch (rejected_reported; false before three fix: commits, witnesses kept as examples). The model (IsMatchType, isCoveredBy, isAcceptVariant, IsMatchUnionType, checkArgType) is tied by the `match` differential stream through a verif hook. "
+             "Receiver lookup, argument counting/binding (required, default, rest, keyword), overload fallback and union receivers are checked end-to-end: generated configurations next to the shipped one, generated programs (ternary unions, instance and class-method calls, nested in if/unless/blocks), a class-level oracle marks calls that CERTAINLY FAIL; each such row (up to the first diagnostic of the program) must be reported.",
+        design="DESIGN.md §4 C07/C08",
+        note="Partial: binding and lookup are not modelled in Lean (end-to-end oracle only). Known finding K28: configured rest parameters do not check their element type. Five fix: commits repaired defects this check found.",
+        technique="Lean 4 proof (case analysis over the matching model) + differential stream over a hook + end-to-end oracle comparison on generated configurations",
+    ),
+    "C08": dict(
+        category="proof",
+        text="Per-argument decision proved in Lean for EVERY declared parameter type and argument type: if every possible value of the argument (each variant of a union argument) is admitted by the parameter, checkArgType reports nothing (fits_accepted; false before the fix: commit on IsMatchUnionType — `Integer|String` against `Int|String|Symbol`). Model tied by the `match` stream. "
+             "End-to-end: the same generated configurations and programs as C07; the oracle marks calls that CERTAINLY FIT (every receiver class has a declaration accepting count and classes); no such row before the first diagnostic of the program may carry a diagnostic.",
+        design="DESIGN.md §4 C07/C08",
+        note="Partial: binding, lookup and overload fallback are end-to-end only. Fix: commits: union-subset acceptance, inherited class methods of configured classes, overloads on union receivers.",
+        technique="Lean 4 proof (case analysis over the matching model) + differential stream over a hook + end-to-end oracle comparison on generated configurations",
+    ),
     "C17": dict(
         category="proof",
         text="Scope core on the Go-map model of TFrame: Lean proves for EVERY sequence of writes performed inside a block that a key absent from the entry snapshot (and not written back) is absent after the block, that outer variables keep what the block assigned to them, that a shadowed variable gets its saved value back (distinct restore keys), "
